@@ -133,8 +133,35 @@ def _worker(job):
 
 
 def _bworker(job):
+    if job[0] == "@bounded":
+        _, prop, tier, seed, known = job
+        return run_bounded(prop, tier, seed, known)
     fid, tier, seed, regions = job
     return run_rtcheck(fid, tier=tier, seed=seed, regions=regions, max_fail=5)
+
+
+def run_bounded(prop, tier="quick", seed=0, known=None, only=None, case=None, timeout=3300):
+    cmd = [VENV_PY, "-m", "harness.bounded", prop, "--tier", tier, "--seed", str(seed)]
+    if known:
+        cmd += ["--known", json.dumps(known)]
+    if only:
+        cmd += ["--only", only]
+    if case is not None:
+        cmd += ["--case", json.dumps(case)]
+    env = dict(os.environ)
+    env["VERIF_REPO"] = REPO
+    env["PYTHONDONTWRITEBYTECODE"] = "1"
+    try:
+        p = subprocess.run(cmd, cwd=HERE, capture_output=True, text=True, timeout=timeout, env=env)
+    except subprocess.TimeoutExpired:
+        return {"@bounded": True, "checks": [], "error": "timeout"}
+    line = (p.stdout.strip().splitlines() or [""])[-1]
+    try:
+        out = json.loads(line)
+    except ValueError:
+        out = {"checks": [], "error": "bounded harness crashed: " + (p.stderr.strip()[-1500:] or p.stdout[-500:])}
+    out["@bounded"] = True
+    return out
 
 
 # ---------------------------------------------------------------------------
@@ -151,6 +178,15 @@ def write_replay(prop, payload):
 def do_replay(prop, path):
     with open(path) as f:
         payload = json.load(f)
+    if payload.get("bounded_check"):
+        res = run_bounded(prop, tier="thorough", only=payload["bounded_check"], case=payload["case"])
+        fails = [f for c in res.get("checks", []) for f in c.get("failures", [])]
+        if fails or res.get("error"):
+            print("VIOLATION property=%s replay=%s" % (prop, path))
+            print(json.dumps(fails[0] if fails else res.get("error")))
+            return 1
+        print("replay: input no longer fails")
+        return 0
     if payload.get("case") is None:
         print("replay file carries no concrete input (obligation %s); solver output:\n%s"
               % (payload.get("obligation"), payload.get("solver_output")))
@@ -226,7 +262,10 @@ def run_check(prop, args, seed, t0):
             continue
         w = e.get("witness")
         still = True
-        if w:
+        if e.get("bounded_check"):
+            res = run_bounded(prop, tier="thorough", only=e["bounded_check"], case=e["case"])
+            still = any(c.get("failures") for c in res.get("checks", [])) or bool(res.get("error"))
+        elif w:
             res = run_rtcheck(w["function"], case=w["case"], clauses=[w["clause"]])
             still = bool(res.get("failures"))
         if still:
@@ -236,18 +275,27 @@ def run_check(prop, args, seed, t0):
             say("note: known finding %s no longer reproduces; its exclusion is dropped" % e["id"])
     regions_by_fid = {}
     for e in active:
+        if not e.get("obligation"):
+            continue
         fid = e["obligation"].split("#")[0]
         clause = e["obligation"].split("#")[1].split(".", 1)[1]
         regions_by_fid.setdefault(fid, {}).setdefault(clause, []).append(e["region"])
 
     # 2. proofs (one process per function)
     rlimit = int(os.environ.get("PYVC_RLIMIT", "40000000" if tier == "quick" else "120000000"))
-    jobs = [(f, [e for e in active if e["obligation"].startswith(f + "#")], rlimit, tier == "thorough")
+    jobs = [(f, [e for e in active if e.get("obligation", "").startswith(f + "#")], rlimit, tier == "thorough")
             for f in fids]
     bfids = [f for f in cfg.get("bounded", []) ]
     with multiprocessing.Pool(min(args.jobs, max(1, len(jobs) + len(bfids)))) as pool:
         presults = pool.map_async(_worker, jobs, chunksize=1)
         bjobs = [(f, tier, seed, regions_by_fid.get(f)) for f in bfids]
+        has_bounded = os.path.exists(os.path.join(HERE, "harness", "b_%s.py" % prop.lower()))
+        if has_bounded:
+            known_cases = {}
+            for e in active:
+                if e.get("bounded_check"):
+                    known_cases.setdefault(e["bounded_check"], []).append(e["case"])
+            bjobs.append(("@bounded", prop, tier, seed, known_cases))
         bresults = pool.map_async(_bworker, bjobs, chunksize=1)
         presults = presults.get()
         bresults = bresults.get()
@@ -261,6 +309,8 @@ def run_check(prop, args, seed, t0):
     functions = []
     samples = []
     kf_obligs = []
+    bounded_out = [b for b in bresults if b.get("@bounded")]
+    bresults = [b for b in bresults if not b.get("@bounded")]
     bmap = {b["fid"]: b for b in bresults}
     discharged_now = []
     for r in presults:
@@ -278,7 +328,7 @@ def run_check(prop, args, seed, t0):
             if args.verbose:
                 say("undecided: %s: %s" % (r["fid"], r["error"]))
         for name, res in r["covers"]:
-            if res == "unreachable" and name.startswith(("return-reachable", "premises")):
+            if res == "unreachable" and name.startswith(("return-reachable", "premises")):  # 'unknown' is not vacuity
                 undecided.append((r["fid"], "vacuity: %s is %s" % (name, res)))
         for ob in r["obligations"]:
             n_obl += 1
@@ -355,6 +405,22 @@ def run_check(prop, args, seed, t0):
                        "replay_cmd": "./check %s --replay <this file>" % prop}
             violations.append((oid, write_replay(prop, payload), False))
             break
+    for bo in bounded_out:
+        if bo.get("error"):
+            undecided.append(("bounded:%s" % prop, bo["error"]))
+        for chk in bo.get("checks", []):
+            bounded.append({"contract": "bounded:" + chk["name"], "what": chk.get("contract", ""),
+                            "bound": chk["bound"], "evaluations": chk["evaluations"],
+                            "distinct_nontrivial": chk["distinct"],
+                            "passed": not chk["failures"] and not chk["error"], "error": chk["error"],
+                            "known_failing_cases": len(chk.get("known_failing", []))})
+            if chk["error"]:
+                undecided.append(("bounded:" + chk["name"], chk["error"][-600:]))
+            for fl in chk["failures"][:2]:
+                payload = {"property": prop, "bounded_check": chk["name"], "contract": chk.get("contract", ""),
+                           "case": fl["case"], "observed": fl["detail"],
+                           "replay_cmd": "./check %s --replay <this file>" % prop}
+                violations.append(("bounded:" + chk["name"], write_replay(prop, payload), False))
     extra = cfg.get("extra")
     extra_cov = {}
     if extra:
@@ -399,8 +465,8 @@ def run_check(prop, args, seed, t0):
         "obligations_proved_outside_known_findings": kf_obligs,
         "samples": samples,
         "explanation": cfg.get("explanation", ""),
-        "evaluations": sum(b.get("evaluations", 0) for b in bresults) + n_obl,
-        "distinct_nontrivial": sum(b.get("distinct", 0) for b in bresults) + n_dis,
+        "evaluations": sum(b.get("evaluations", 0) for b in bounded) + n_obl,
+        "distinct_nontrivial": sum(b.get("distinct_nontrivial", 0) for b in bounded) + n_dis,
         "rule": "obligations: one per contract clause / loop invariant / safety condition generated from the "
                 "current source; bounded: distinct concrete inputs with a non-empty child list",
         "exhaustive": False,
